@@ -24,7 +24,7 @@ GEN = []
 OPS = ['C15']
 RULE = ('histories of 5..12 (quick) / 5..30 (thorough) operations drawn from crop/trim/pad/append/resample with parameters relative to the '
         'current range (inside, at, and outside it; refusals included: non-increasing grids, overlapping appends, wrong lengths, '
-        'non-positive pads, tol>=1) on dyadic spectra of 2..10 samples; integrate with random bounds, linear/additive/exactness probes; '
+        'non-positive pads, tol>=1) on dyadic spectra of 2..10 samples (one in five stored as int64); integrate with random bounds, linear/additive/exactness probes; '
         'bin with 2..7 centres (uniform and non-uniform), trapz/simps, symmetric/inside, preserve_power on/off, scalar and pair '
         'fill values. distinct = (kind, sizes, op kinds, first data); non-trivial = a history with >= 2 different op kinds or a bin/integrate '
         'whose range cuts the data')
@@ -108,7 +108,16 @@ def generate(rng, tier):
                         'jit': [int(x) / 8 for x in rng.integers(0, 7, 8)],
                         'simps': bool(rng.integers(0, 2)), 'ends': ['symmetric', 'inside'][int(rng.integers(0, 2))], 'pp': bool(rng.integers(0, 2)),
                         'fill': [0.0, 0.0, 1.5, [0.5, 2.0]][int(rng.integers(0, 4))], 'unit': ['nm', 'nm', 'um', 'angstrom', 'm'][int(rng.integers(0, 5))]})
+    # storage dtype: integer-valued spectra (0/1 bandpasses, counts) stored as int64
+    for c in out:
+        if c.get('linear') is None and '_corpus' not in c and rng.integers(0, 5) == 0:
+            c['dtype'] = 'int'
+            c['value'] = [float(int(v)) for v in c['value']]
     return out
+
+def _vals(c):
+    v = np.array(c['value'])
+    return v.astype(np.int64) if c.get('dtype') == 'int' else v
 
 def signature(c):
     if c['kind'] == 'history': return 'history n=%d %s %s' % (len(c['wave']), ','.join(o['k'] for o in c['ops']), c['wave'][:2])
@@ -120,7 +129,7 @@ def nontrivial(c):
     return True
 
 def tags(c):
-    t = [c['kind']]
+    t = [c['kind'], 'dtype:' + c.get('dtype', 'float')]
     if c['kind'] == 'history': t += sorted({'op:' + o['k'] for o in c['ops']})
     if c['kind'] == 'bin': t += ['bin:' + ('simps' if c['simps'] else 'trapz'), 'bin:' + c['ends'], 'bin:unit=' + c['unit']]
     return t
@@ -185,7 +194,7 @@ def impl(c):
         warnings.simplefilter('ignore')
         k = c['kind']
         if k == 'history':
-            s = R.Spectrum(np.array(c['wave']), np.array(c['value']), waveunit='nm')
+            s = R.Spectrum(np.array(c['wave']), _vals(c), waveunit='nm')
             steps = []
             for o in c['ops']:
                 p = _resolve(o, s, R)
@@ -207,7 +216,7 @@ def impl(c):
                 steps.append(st)
             return {'steps': steps}
         if k == 'integrate':
-            w, v, v2 = np.array(c['wave']), np.array(c['value']), np.array(c['value2'])
+            w, v, v2 = np.array(c['wave']), _vals(c), np.array(c['value2'])
             s = R.Spectrum(w, v)
             lo, hi = float(w.min()), float(w.max()); span = hi - lo
             a, b = lo + c['a'] * span, lo + c['b'] * span
@@ -219,7 +228,7 @@ def impl(c):
                     'left': float(s.integrate(lo, mid, method='trapz')), 'right': float(s.integrate(mid, hi, method='trapz')),
                     'lin': float(R.Spectrum(w, lin).integrate(method='trapz')), 'lin_simps': float(R.Spectrum(w, lin).integrate(method='simps'))}
         if k == 'bin':
-            w, v = np.array(c['wave']), np.array(c['value'])
+            w, v = np.array(c['wave']), _vals(c)
             scale = 1.0 if (c['unit'] == 'nm' or 'centres_abs' in c) else 2.0 ** -10      # a dyadic factor keeps the data exact in the other unit
             s = R.Spectrum(w * scale, v, waveunit=c['unit'])
             lo, hi = float(w.min()), float(w.max()); span = hi - lo
@@ -228,6 +237,9 @@ def impl(c):
             if c['uniform'] or m < 3: cen = [a + (b - a) * i / max(m - 1, 1) for i in range(m)]
             else:
                 cen = sorted({a + (b - a) * (i + (c['jit'][i] - 0.4 if 0 < i < m - 1 else 0)) / (m - 1) for i in range(m)})
+            # dyadic centres (multiples of 2^-6 in the data's own scale): edges and midpoints are then exact in float64, so the
+            # implementation and the exact model take the same in-range/out-of-range decisions at the ends of the data
+            cen = sorted({round(x * 64) / 64 for x in cen})
             cen = [x * scale for x in cen]
             if 'centres_abs' in c: cen = list(c['centres_abs'])
             method = 'simps' if c['simps'] else 'trapz'
@@ -303,11 +315,12 @@ def compare(c, io, mo):
             mw, mv = _fl(m['wave']), _fl(m['value'])
             exact = st['p']['k'] in ('crop', 'trim', 'append')
             rel = 0.0 if exact else 1e-11
+            atol = 0.0 if exact else 1e-11 * (1.0 + max([abs(x) for x in st['before']['value']] + [0.0]))
             got = st.get('returned', st['after'])
             if 'returned' in st and st['after'] != st['before']: return f'{what}(copy=True) changed the caller'
             st = dict(st, after=got)
             if not all_close(mw, st['after']['wave'], rel): return f"{what} {st['p']}: wave impl {st['after']['wave']} model {mw}"
-            if not all_close(mv, st['after']['value'], rel, 1e-300): return f"{what} {st['p']}: value impl {st['after']['value']} model {mv}"
+            if not all_close(mv, st['after']['value'], rel, atol): return f"{what} {st['p']}: value impl {st['after']['value']} model {mv}"
         return None
     if k == 'integrate':
         for key, m in zip(('I', 'I2'), mo):
@@ -412,7 +425,6 @@ def oracle(c, io):
         bins = io['bins']
         if len(bins) != len(cen): return f'{tag}: {len(bins)} bins for {len(cen)} centres'
         fl, fr = _fill(c['fill'])
-        scale = cen[0] / cen[0]  # 1.0
         uniform = all(close(cen[i + 1] - cen[i], cen[1] - cen[0], 1e-12) for i in range(len(cen) - 1))
         finite = all(np.isfinite(x) for x in bins)
         if min(c['value']) >= 0 and fl >= 0 and fr >= 0 and finite and not (c['simps'] and c['pp']):
